@@ -81,13 +81,49 @@ class JsonSchemaParser:
     #         def_prefix=self.def_prefix,
     #     ).parse(type_only=True)
 
+    # keywords that only say something about instances of one primitive type
+    TYPE_KEYWORDS = {
+        'object': ('properties', 'required', 'additionalProperties', 'dependentRequired',
+                   'propertyNames', 'patternProperties'),
+        'array': ('items', 'prefixItems'),
+    }
+
     @classmethod
-    def get_constraints(cls, schema: dict):
+    def get_constraints(cls, schema: dict, type: str = None):
+        # only the keywords that apply to the primitive type are constraints of the type built for it
+        # (maxLength / maxItems / maxProperties all map to max_length)
+        keywords = None
+        for types, keyword_map in constant.TYPE_CONSTRAINTS_MAP.items():
+            if type in types:
+                keywords = set(keyword_map.values())
         constraints = {}
         for key, val in schema.items():
             if key in constant.CONSTRAINTS_MAP:
-                constraints[constant.CONSTRAINTS_MAP[key]] = val
+                if keywords is None or key in keywords:
+                    constraints[constant.CONSTRAINTS_MAP[key]] = val
         return constraints
+
+    @classmethod
+    def infer_type(cls, schema: dict) -> Optional[str]:
+        # a schema with no "type" whose keywords constrain one primitive type is built as that type
+        # (stricter than the schema, which lets every other type pass)
+        for types, keyword_map in constant.TYPE_CONSTRAINTS_MAP.items():
+            for key in keyword_map.values():
+                if key in schema and key not in constant.DEFAULT_CONSTRAINTS_MAP:
+                    return types[-1]
+        for type, keys in cls.TYPE_KEYWORDS.items():
+            for key in keys:
+                if key in schema:
+                    return type
+        return None
+
+    @classmethod
+    def get_primitive(cls, t) -> str:
+        if isinstance(t, _type):
+            for types, primitive in constant.PRIMITIVE_MAP.items():
+                if issubclass(t, types):
+                    return primitive
+        return 'string'
 
     def parse_field(self, schema: dict,
                     name: str = None,
@@ -99,6 +135,7 @@ class JsonSchemaParser:
                     **kwargs,
                     ) -> Tuple[type, Field]:
         type = self.parse_type(schema, name=name, with_constraints=False)
+        schema_type = schema.get('type') or self.infer_type(schema)
         # annotations
         default = schema.get('default', unprovided)
         deprecated = schema.get('deprecated', False)
@@ -107,7 +144,7 @@ class JsonSchemaParser:
         readonly = schema.get('readOnly')
         writeonly = schema.get('writeOnly')
         aliases = schema.get('x-aliases')
-        kwargs.update(self.get_constraints(schema))
+        kwargs.update(self.get_constraints(schema, schema_type))
         kwargs.update(
             alias=alias,
             default=default,
@@ -149,9 +186,12 @@ class JsonSchemaParser:
         if ref:
             return ForwardRef(self.get_def_name(ref))
 
+        if not type:
+            type = self.infer_type(schema)
+
         constraints = {}
         if with_constraints:
-            constraints = self.get_constraints(schema)
+            constraints = self.get_constraints(schema, type)
 
         t = self.default_type
         if type:
@@ -174,6 +214,9 @@ class JsonSchemaParser:
                 t = None
                 if format:
                     t = self.type_map.get(format)
+                    if t and self.get_primitive(t) != type:
+                        # the format names a type of another primitive type: an annotation only
+                        t = None
                 t = t or self.type_map.get(type) or self.default_type
 
         elif not unprovided(value):
